@@ -385,6 +385,10 @@ def run(ctx):
     single_precision_categories(ctx)
     relational(ctx, ctx.budget(40, 1200))
     after_write(ctx, ctx.budget(30, 800))
+    # long category tables and curves (40 .. 1000 entries, listed in no particular order, ints and floats mixed) on grids of rank 1-3: every cell gets the value
+    # listed for its own code / the point on the curve - compared with the model and with the exact reference mapping
+    # (added after the streams above so that those generate what they always generated under a given seed)
+    eems.run_stream(ctx, model, eems.long_table_cases(eems._rng2(ctx)), "exec:conversions-long-tables", on_result=orc)
     numeric.focus_search(ctx, model, lambda cmds, f: gen(ctx, [c for c in cmds if c in eems.CONVERSIONS], n * f), orc)
     return ctx.finish(
         rule="cases = (conversion/normalisation command, parameters: thresholds in both orders and equal, directions, category tables, "
